@@ -149,7 +149,13 @@ def twin_run(chk, rng, ctype, sk, dt, steps, batch, report=True, corrupt=False, 
                                        batch_size=batch)
         inshape = (I,)
     gen = torch.Generator().manual_seed(rng.randrange(1 << 30))
-    delayed = make(cf["dly"] * P.tick)
+    if rng.random() < 0.3:
+        # built with a maximum delay half a step shorter (the same number of stored steps) and raised to the configured
+        # maximum through the synapse's public setter: delays up to the REPORTED maximum must shift exactly
+        delayed = make((cf["dly"] - D // 2) * P.tick)
+        delayed.synapse.delay = cf["dly"] * P.tick
+    else:
+        delayed = make(cf["dly"] * P.tick)
     wshape = tuple(delayed.weight.shape)
     Wt = (torch.randint(-4, 5, wshape, generator=gen).float() / 4.0)
     dk = torch.randint(0, maxk + 1, wshape, generator=gen)
